@@ -6,6 +6,7 @@
 
 #include <cmath>
 #include <cstdlib>
+#include <random>
 #include <vector>
 
 using namespace vt;
@@ -208,6 +209,45 @@ static void adaptive(rng& g, int run)
     }
 }
 
+// ---- the weight of every single point at the precision of the numeric type: 1 / sum_j alpha_j p_j(x) with weights and densities that are
+// not dyadic, against the same expression evaluated with 113 bits; n products, n - 1 additions and one division in T cost at most
+// n + 2 roundings
+template <typename T>
+static void weight_eps(rng& g, int run)
+{
+    std::size_t n = 2 + g.below(4);
+    std::vector<T> w(n);
+    for (auto& x : w) x = T(1 + g.below(97)) / T(10);
+    std::vector<T> dens(2 * n);
+    for (auto& x : dens) x = T(1 + g.below(29)) / T(3 + g.below(7));
+    std::vector<T> used;
+    long double max_dev = 0.0L;
+    long long points = 0;
+    auto map = [&](std::size_t, std::vector<T> const& r, std::vector<T>& co, std::vector<std::size_t> const&, std::vector<T>& de, hep::multi_channel_map) {
+        co[0] = r[0];
+        for (std::size_t j = 0; j != n; ++j) de[j] = dens[2 * j + (r[0] < T(0.5) ? 0 : 1)];
+        return T(1);
+    };
+    auto fn = [&](hep::multi_channel_point<T> const& p) {
+        __float128 gq = 0;
+        for (std::size_t j = 0; j != n; ++j) gq += (__float128) used[j] * (__float128) dens[2 * j + (p.coordinates()[0] < T(0.5) ? 0 : 1)];
+        __float128 ref = (__float128) 1 / gq;
+        __float128 diff = (__float128) p.weight() - ref;
+        if (diff < 0) diff = -diff;
+        long double dev = (long double) (diff / ref) / std::numeric_limits<T>::epsilon();
+        if (!(dev <= max_dev)) max_dev = dev;
+        ++points;
+        return T(1);
+    };
+    auto chk = hep::make_multi_channel_chkpt<T>(w, T(), T(0.25), std::mt19937((unsigned) g.below(100000)));
+    using C = decltype(chk);
+    chk.channels(n);
+    used = chk.channel_weights();
+    hep::multi_channel(hep::make_multi_channel_integrand<T>(fn, 1, map, 1, n), std::vector<std::size_t>{200}, chk, hep::callback<C>(hep::callback_mode::silent));
+    ev("McWeightEps").s("T", type_name<T>::get()).i("run", run).i("n", (long long) n).i("points", points)
+        .i("maxDev", std::isfinite(max_dev) ? (long long) std::ceil(max_dev) : 999999999).emit();
+}
+
 // ---- adaptive multi channel runs: after 1..3 adaptive iterations driven by pseudo-random numbers the run is resumed for one lattice
 // iteration with whatever weights the adaptation (exponent beta, minimum weight, channels without any contribution) has produced.
 // Channels: two-bin grids [0, k/4, 1] (k = 1..3) and, for k = 0, the map onto [0, 1/2) with density 2 there and 0 elsewhere.
@@ -342,6 +382,7 @@ int main(int argc, char** argv)
     if (thorough) mc_cases<long double>(g, true);
     for (int r = 0; r != (thorough ? 30 : 6); ++r) { if (r % 3 == 0) adaptive<float>(g, r); else if (r % 3 == 1) adaptive<double>(g, r); else adaptive<long double>(g, r); }
     for (int r = 0; r != (thorough ? 30 : 6); ++r) { if (r % 3 == 0) adaptive_mc<double>(g, r); else if (r % 3 == 1) adaptive_mc<float>(g, r); else adaptive_mc<long double>(g, r); }
+    for (int r = 0; r != (thorough ? 90 : 30); ++r) { if (r % 3 == 0) weight_eps<double>(g, r); else if (r % 3 == 1) weight_eps<float>(g, r); else weight_eps<long double>(g, r); }
     out().close();
     return 0;
 }
